@@ -51,7 +51,7 @@ def keyfn(row):
 def run(ctx):
     sd = su.spec_dir()
     thorough = ctx.tier == "thorough"
-    exe = ctx.build("d_sidemeta")
+    exe = su.build(ctx)
     mcs = ["MC_SideMetaBulk_b1.cfg", "MC_SideMetaBulk_b4.cfg", "MC_SideMetaBulk_b16.cfg"]
     if thorough:
         mcs += ["MC_SideMetaBulk_b2.cfg", "MC_SideMetaBulk_b1_deep.cfg", "MC_SideMetaBulk_b2_deep.cfg"]
@@ -64,11 +64,11 @@ def run(ctx):
         ctx.tlc_mc("SideMetaBulk.tla", c, spec_dir=sd, expect_violation=True)
     runs = [("debug", exe)]
     if thorough:
-        runs.append(("release", ctx.build("d_sidemeta", release=True)))
+        runs.append(("release", su.build(ctx, release=True)))
     calls = 0
     for name, binp in runs:
         out = os.path.join(ctx.work, "c21_%s.ndjson" % name)
-        summary = su.run_driver(ctx, binp, "c21", out)
+        summary = su.run_driver(ctx, binp, "c21", out, release=(name == "release"))
         total, n = su.count_rows(out, ["Bulk", "Map", "Crash"])
         calls += n["Bulk"]
         ctx.cov["driver_%s" % name] = {"summary": summary, "rows": total, "calls": n["Bulk"],
